@@ -14,9 +14,11 @@ META = dict(
     watchdog_s={"quick": 900, "thorough": 3600},
     evaluations_counter="executions",
     min={"cases": 1000, "metamorphic_pairs": 1000, "range_checks": 2000},
-    anchors=["tensor/qweight.py:quantize_weight", "calibrate.py:absmax_scale",
+    anchors=["tensor/qweight.py:quantize_weight",
+             "calibrate.py:absmax_scale",
              "tensor/optimizers/absmax_optimizer.py:AbsmaxOptimizer.optimize",
-             "tensor/optimizers/max_optimizer.py:MaxOptimizer.optimize"],
+             "tensor/optimizers/max_optimizer.py:MaxOptimizer.optimize",
+             "tensor/core.py:axis_to_dim"],
     rule="case = base tensor whose rows/groups have ranges spread over >=3 decades (value classes as in C02) x one API "
          "(AbsmaxOptimizer, MaxOptimizer, absmax_scale, quantize_weight) x qtype x axis x group size, plus 3-6 "
          "metamorphic siblings (other rows/groups rescaled by factors in [1e-3,1e3], replaced by another class, rows "
